@@ -29,7 +29,7 @@ CHECKS = {
              'collapse_refines_measure, spec_measure_group_char, eval_hom, central_is_scalar); (O) every record, peek/is_deterministic/'
              'expectation answer and measure-after-peek of the real simulator (3 widths, index straddling 64/128/256, all gates, '
              'feedback, MPP/SPP, REPEAT, `!`) must be a solution of the specification\'s symbolic sign forms, decided by the verified '
-             'GF(2) solver (sound+complete); free measurements must take both values.',
+             'GF(2) solver (sound+complete); free measurements must take both values. Reference samples through the loop-folding path (ReferenceSampleTree, REPEAT >= 10 with the record replayed for skipped iterations, feedback looking back across the loop, pre-loop results that differ from the periodic content) must solve the forms of the unrolled circuit.',
         note=TB + ' The assembly of the per-step lemmas into one theorem over whole circuits (tabsim_refines_spec) is not finished: '
                   'whole-circuit behaviour is tied by the oracle correspondence. The stabilizer measurement rule for n>2 qubits is '
                   'the standard update rule (DESIGN section 6).',
@@ -70,8 +70,8 @@ CHECKS = {
              'from that run\'s measurement-flip rows at the index sets the specification assigns; m2d on random measurement and sweep '
              'tables must give parity(measured) xor the specification\'s noiseless parity under the same sweep bits (with and without '
              'skip_reference_sample, appended observables); detect option matrix {append, prepend, obs_out, plain} x 6 formats x shot '
-             'counts decodes to identical bits; deterministic detection data identical in memory vs forced streaming.',
-        note=TB + ' OBSERVABLE_INCLUDE Pauli targets and --ran_without_feedback are not exercised here (the latter belongs to C13).',
+             'counts decodes to identical bits; deterministic detection data identical in memory vs forced streaming. `stim m2d --ran_without_feedback` is decided by an oracle that does not use the implementation\'s inlining: the record controls become variables of the specification, the coefficient matrix A (result j flips result k) maps data taken without feedback to the record m = m\' + A m of the circuit with feedback, and the events must be the original circuit\'s detectors on m (feedback pairs mixed with ordinary pairs in one instruction, adjacent lines the parser fuses).',
+        note=TB + ' OBSERVABLE_INCLUDE Pauli targets are not exercised here.',
         design='§4 C04'),
     'C03': dict(
         technique='Coq proofs (generated reverse-tracker obligations, adjointness for the whole gate set, probability algebra over Q) + '
@@ -83,7 +83,7 @@ CHECKS = {
              'implementation\'s model must define the same joint distribution, compared through E[(-1)^(s.x)] on all unit vectors, '
              'pairs and random vectors (exact to 1e-7; with approximate_disjoint_errors within the first-order bound 2*P^2 per '
              'approximated channel); rejections (non-deterministic detector/observable, channels needing the approximation, '
-             'over-mixing) must match the specification; options fold_loops / allow_gauge_detectors / approximate_disjoint_errors.',
+             'over-mixing) must match the specification; options fold_loops / allow_gauge_detectors / approximate_disjoint_errors. Rejection clause: a non-deterministic observable (also one sharing its anticommuting set with a gauge detector) must be refused whether or not gauge detectors are allowed.',
         note=TB + ' The analyzer\'s bookkeeping (add_error_combinations, gauge removal, unreversed) is not modelled in Coq; pair and product measurements enter the '
                   'adjointness theorem only through their decomposition. Distribution equality is '
                   'a randomized identity test over test vectors.',
